@@ -202,17 +202,26 @@ def canon_lines(lines: list[str]) -> list[str]:
 
 
 def error_kind(res: tproj.RunResult) -> str:
+	"""Outcome class of a run. The model speaks about the root cause (decode error, missing directory); the loader may wrap
+	it into an application error (`raise Errors.Fatal(...) from e`), so the cause chain is followed to its end."""
 	e = res.exc
 	if e is None:
 		return 'ok'
-	frames = traceback.extract_tb(e.__traceback__)
-	if any(fr.name == 'load' and fr.filename.endswith('lark/parser.py') and 'Lark.load' in (fr.line or '') for fr in frames):
-		return 'err:BinLoadError'
-	if isinstance(e, FileNotFoundError):
+	chain: list[BaseException] = []
+	cur: BaseException | None = e
+	while cur is not None and cur not in chain:
+		chain.append(cur)
+		cur = cur.__cause__ or (cur.__context__ if not cur.__suppress_context__ else None)
+	for x in chain:
+		frames = traceback.extract_tb(x.__traceback__)
+		if any(fr.name == 'load' and fr.filename.endswith('lark/parser.py') and 'Lark.load' in (fr.line or '') for fr in frames):
+			return 'err:BinLoadError'
+	root = chain[-1]
+	if isinstance(root, FileNotFoundError):
 		return 'err:FileNotFoundError'
-	if isinstance(e, ValueError):
+	if isinstance(root, ValueError):
 		return 'err:ValueError'
-	return f'err:{common.exc_enum(e)}'
+	return f'err:{common.exc_enum(root)}'
 
 
 def observe(proj: tproj.Project, status: str, events: list[tuple[str, str]]) -> str:
